@@ -47,6 +47,8 @@ func checkC19(c *Ctx) error {
 		json.Unmarshal(raw, &probe)
 		if probe.Gen == "Ranger" {
 			c19Ranger(c, raw)
+		} else if probe.Gen == "LenOf" {
+			c19LenOf(c, raw)
 		} else {
 			c19Group(c, raw)
 		}
@@ -63,11 +65,21 @@ func checkC19(c *Ctx) error {
 	if err == nil {
 		_, err = c.mustTLC("GroupBy/"+gc, TLCOpts{Module: "GroupBy", Cfg: gc, Workers: 8, Seed: c.Seed, Timeout: 20 * time.Minute}, true, pool.feed)
 	}
+	if err == nil {
+		_, err = c.mustTLC("LenOf/LenOf.quick.cfg", TLCOpts{Module: "LenOf", Cfg: "LenOf.quick.cfg", Workers: 4, Seed: c.Seed, Timeout: 10 * time.Minute}, true, pool.feed)
+	}
 	pool.close()
 	if err != nil {
 		return err
 	}
 	c.exhaustive = true
+	if lr, lerr := RunTLC(TLCOpts{Module: "LenOf", Cfg: "LenOf.asbuilt.cfg", Workers: 2, Seed: c.Seed, Timeout: 5 * time.Minute, NoCases: true}, nil); lerr != nil {
+		return lerr
+	} else if lr.Violated == "" {
+		return fmt.Errorf("LenOf.tla no longer distinguishes the IsZero shortcut")
+	} else {
+		c.extra["model_sensitivity_len"] = fmt.Sprintf("LenOf.tla with ZeroShortcut=TRUE: TLC reports %q", lr.Violated)
+	}
 	r, err := RunTLC(TLCOpts{Module: "Ranger", Cfg: "Ranger.asbuilt.cfg", Workers: 4, Seed: c.Seed, Timeout: 10 * time.Minute, NoCases: true}, nil)
 	if err != nil {
 		return err
@@ -310,6 +322,9 @@ func c19Group(c *Ctx, raw json.RawMessage) {
 			return g, nil
 		},
 	}
+	if gc.N >= 1000000-8 {
+		gc.N = math.MaxInt - (1000000 - gc.N) // the model's Big stands for math.MaxInt
+	}
 	for tname, xs := range c19Slices(gc.Len) {
 		for iname, impl := range impls {
 			shape := ""
@@ -406,5 +421,128 @@ func c19Len(c *Ctx) {
 		if ro.Out != fmt.Sprint(tc.want) {
 			c.Fail("len:template:"+tc.name, fmt.Sprintf("<%%= len(x) %%> with x %s rendered %+v, want %d", tc.name, ro, tc.want), map[string]interface{}{"gen": "Len", "name": tc.name})
 		}
+	}
+}
+
+// ---------------------------------------------------------------- LenOf.tla
+
+type lenCase struct {
+	V struct {
+		Kind    string `json:"kind"`
+		N       int    `json:"n"`
+		Fill    string `json:"fill"`
+		Ptr     int    `json:"ptr"`
+		NilBase bool   `json:"nilbase"`
+		NilPtr  bool   `json:"nilptr"`
+	} `json:"v"`
+	Specified bool `json:"specified"`
+	Want      int  `json:"want"`
+	Impl      int  `json:"impl"`
+}
+
+// lenValue builds the Go value an abstract LenOf value stands for.
+func lenValue(lc *lenCase) interface{} {
+	v := lc.V
+	el := func(i int) int {
+		if v.Fill == "zero" {
+			return 0
+		}
+		return i + 1
+	}
+	var base reflect.Value
+	switch v.Kind {
+	case "untyped_nil":
+		return nil
+	case "string":
+		b := make([]byte, v.N)
+		for i := range b {
+			if v.Fill != "zero" {
+				b[i] = byte('a' + i)
+			}
+		}
+		base = reflect.ValueOf(string(b))
+	case "slice":
+		if v.NilBase {
+			base = reflect.ValueOf([]int(nil))
+		} else {
+			xs := make([]int, v.N)
+			for i := range xs {
+				xs[i] = el(i)
+			}
+			base = reflect.ValueOf(xs)
+		}
+	case "array":
+		base = reflect.New(reflect.ArrayOf(v.N, reflect.TypeOf(0))).Elem()
+		for i := 0; i < v.N; i++ {
+			base.Index(i).SetInt(int64(el(i)))
+		}
+	case "map":
+		if v.NilBase {
+			base = reflect.ValueOf(map[string]int(nil))
+		} else {
+			m := map[string]int{}
+			for i := 0; i < v.N; i++ {
+				m[fmt.Sprintf("k%d", i)] = el(i)
+			}
+			base = reflect.ValueOf(m)
+		}
+	case "int":
+		base = reflect.ValueOf(0)
+	case "struct":
+		base = reflect.ValueOf(struct{ A int }{})
+	}
+	cur := base
+	for p := 0; p < v.Ptr; p++ {
+		if p == v.Ptr-1 && v.NilPtr {
+			cur = reflect.Zero(reflect.PointerTo(cur.Type()))
+			break
+		}
+		ptr := reflect.New(cur.Type())
+		ptr.Elem().Set(cur)
+		cur = ptr
+	}
+	return cur.Interface()
+}
+
+func c19LenOf(c *Ctx, raw json.RawMessage) {
+	var lc lenCase
+	if err := json.Unmarshal(raw, &lc); err != nil {
+		c.Fail("harness:json", err.Error(), string(raw))
+		return
+	}
+	x := lenValue(&lc)
+	name := fmt.Sprintf("%T/n=%d/%s", x, lc.V.N, lc.V.Fill)
+	if lc.V.NilBase || lc.V.NilPtr {
+		name += "/nil"
+	}
+	shape := ""
+	if lc.Specified {
+		shape = "len(" + name + ")"
+	}
+	c.Eval(shape)
+	c.Rule("len")
+	got := -1
+	o := guarded(2*time.Second, func() (string, error) { got = meta.Len(x); return "", nil })
+	cas := map[string]interface{}{"gen": "LenOf", "v": lc.V, "specified": lc.Specified, "want": lc.Want, "impl": lc.Impl}
+	switch {
+	case o.Panic != "" || o.Hang:
+		c.Fail("len:crash:"+lc.V.Kind, fmt.Sprintf("len(%s): panic %q hang %v", name, o.Panic, o.Hang), cas)
+		return
+	case lc.Specified && got != lc.Want:
+		c.Fail("len:"+lc.V.Kind, fmt.Sprintf("len(%s) = %d, the Go length is %d", name, got, lc.Want), cas)
+		return
+	case !lc.Specified && got != lc.Impl:
+		c.Drift("len:outside-the-statement:differs-from-transcription")
+	}
+	if x == nil {
+		return
+	}
+	ctx := plush.NewContext()
+	ctx.Set("x", x)
+	ro := guarded(2*time.Second, func() (string, error) { return plush.Render("<%= len(x) %>", ctx) })
+	if ro.Panic != "" || ro.Hang {
+		c.Fail("len:template:crash:"+lc.V.Kind, fmt.Sprintf("<%%= len(x) %%> with x %s: %+v", name, ro), cas)
+	} else if lc.Specified && ro.Out != fmt.Sprint(lc.Want) {
+		c.Fail("len:template:"+lc.V.Kind, fmt.Sprintf("<%%= len(x) %%> with x %s rendered %+v, want %d", name, ro, lc.Want), cas)
 	}
 }
